@@ -7,6 +7,7 @@ import (
 	"image/color"
 	"image/jpeg"
 	"image/png"
+	"sort"
 
 	"github.com/tsawler/tabula/core"
 	"github.com/tsawler/tabula/pages"
@@ -49,7 +50,17 @@ func (r *Reader) ExtractPageImages(page *pages.Page) ([]PageImage, error) {
 
 	var images []PageImage
 
-	for name, xobj := range xobjects {
+	// Visit the XObjects in the order of their names: the order of a range over
+	// the dictionary changes from run to run, and with it the order of the
+	// images returned (and of the OCR text assembled from them).
+	names := make([]string, 0, len(xobjects))
+	for name := range xobjects {
+		names = append(names, name)
+	}
+	sort.Strings(names)
+
+	for _, name := range names {
+		xobj := xobjects[name]
 		// Resolve XObject
 		resolved, err := r.Resolve(xobj)
 		if err != nil {
